@@ -25,23 +25,33 @@ variable {K : Type} [Add K] [Mul K] [Sub K] [Neg K] [Zero K] [One K] [Div K] [De
 def step (damping : K) (A : CRS K) (P : Vec K → Vec K) (f x : Vec K) : Vec K :=
   axpby damping (P (residual f A x)) 1 x
 
-/-- one pass through the loop body, richardson.hpp:170-173; returns `(res_norm, x, work)` -/
+/-- loop-carried variables, the caller's `x` and the work vectors -/
+structure St (K : Type) where
+  iter : Nat
+  res  : K
+  x    : Vec K
+  w    : Work K
+
+/-- one pass through the loop body, richardson.hpp:170-173, including the `++iter` -/
 def body (damping : K) (ip : Vec K → Vec K → K) (sqrt : K → K) (A : CRS K) (P : Vec K → Vec K)
-    (f x : Vec K) (w : Work K) : K × Vec K × Work K :=
-  let s := P w.r                          -- P.apply(*r, *s);
-  let x := axpby damping s 1 x            -- axpby(prm.damping, *s, one, x);
+    (f : Vec K) (st : St K) : St K :=
+  let s := P st.w.r                       -- P.apply(*r, *s);
+  let x := axpby damping s 1 st.x         -- axpby(prm.damping, *s, one, x);
   let r := residual f A x                 -- residual(rhs, A, x, *r);
-  (nrm ip sqrt r, x, ⟨r, s⟩)             -- res_norm = norm(*r);
+  { iter := st.iter + 1, res := nrm ip sqrt r, x := x, w := ⟨r, s⟩ }   -- res_norm = norm(*r);
+
+/-- the second conjunct of the loop guard: `math::norm(res_norm) > eps` -/
+def cond (epsT : K) (st : St K) : Bool := decide (epsT < absK st.res)
 
 /-- `for(; iter < prm.maxiter && math::norm(res_norm) > eps; ++iter) body` with `fuel = maxiter - iter` -/
 def loop (damping : K) (ip : Vec K → Vec K → K) (sqrt : K → K) (A : CRS K) (P : Vec K → Vec K) (f : Vec K)
-    (epsT : K) : Nat → Nat → K → Vec K → Work K → Nat × K × Vec K × Work K
-  | 0, iter, res, x, w => (iter, res, x, w)
-  | fuel + 1, iter, res, x, w =>
-    if epsT < absK res then
-      let (res', x', w') := body damping ip sqrt A P f x w
-      loop damping ip sqrt A P f epsT fuel (iter + 1) res' x' w'
-    else (iter, res, x, w)
+    (epsT : K) : Nat → St K → St K :=
+  loopN (cond epsT) (body damping ip sqrt A P f)
+
+/-- the state on loop entry, richardson.hpp:164-165 -/
+def init (ip : Vec K → Vec K → K) (sqrt : K → K) (A : CRS K) (ws : Work K) (f x0 : Vec K) : St K :=
+  let r := residual f A x0                                -- residual(rhs, A, x, *r);
+  { iter := 0, res := nrm ip sqrt r, x := x0, w := { ws with r := r } }   -- res_norm = norm(*r);
 
 def run (prm : Params K) (ip : Vec K → Vec K → K) (sqrt : K → K) (eps : K) (A : CRS K) (P : Vec K → Vec K)
     (ws : Work K) (f x0 : Vec K) : Run K (Work K) :=
@@ -49,10 +59,8 @@ def run (prm : Params K) (ip : Vec K → Vec K → K) (sqrt : K → K) (eps : K)
   | .trivial n => (.ok (0, n), vclear x0.size, ws)       -- clear(x); return (0, norm_rhs);
   | .go normRhs =>
     let epsT := maxK (prm.tol * normRhs) prm.abstol       -- eps = std::max(prm.tol * norm_rhs, prm.abstol);
-    let r := residual f A x0                              -- residual(rhs, A, x, *r);
-    let res := nrm ip sqrt r                              -- res_norm = norm(*r);
-    let (iter, res, x, w) := loop prm.damping ip sqrt A P f epsT prm.maxiter 0 res x0 { ws with r := r }
-    (.ok (iter, res / normRhs), x, w)                     -- return (iter, res_norm / norm_rhs);
+    let st := loop prm.damping ip sqrt A P f epsT prm.maxiter (init ip sqrt A ws f x0)
+    (.ok (st.iter, st.res / normRhs), st.x, st.w)         -- return (iter, res_norm / norm_rhs);
 
 def solve (prm : Params K) (ip : Vec K → Vec K → K) (sqrt : K → K) (eps : K) (A : CRS K) (P : Vec K → Vec K)
     (ws : Work K) (f x0 : Vec K) : Except Err (Nat × K × Vec K × Work K) :=
